@@ -21,8 +21,8 @@ ONLINE = {'which': ['lock'], 'foreign': ['C05', 'C11', 'C14', 'C20'], 'n': {'qui
 REQUIRED_BUCKETS = ['op:finalize', 'op:bind', 'op:parse', 'op:macro', 'op:register', 'op:register-same-object-again', 'op:external', 'op:clear', 'op:unlock', 'op:unlock-raises',
                     'op:unlock-nested', 'op:hookplan', 'op:poison', 'state:mutation-under-lock', 'state:double-finalize',
                     'state:unlock-while-locked', 'state:unlock-raises-while-locked', 'state:finalize-inside-unlock',
-                    'reject:unbound-macro', 'reject:unevaluated-macro', 'reject:unknown-reference', 'reject:required',
-                    'reject:hook-conflict', 'reject:hook-conflict-spelling', 'reject:hook-invalid-key', 'reject:hook-raises',
+                    'reject:unbound-macro', 'reject:unevaluated-macro', 'reject:unknown-reference', 'reject:required', 'reject:unbound-macro-as-dict-key', 'reject:unknown-reference-unevaluated',
+                    'reject:hook-conflict', 'reject:hook-conflict-spelling', 'reject:hook-conflict-same-value', 'op:register-hook', 'reject:hook-invalid-key', 'reject:hook-raises',
                     'hooks:return-bindings-applied', 'hooks:saw-pre-finalize-config', 'op:from-another-thread']
 ORACLE_COUNTERS = ['oracle_evals', 'ops_compared']
 
@@ -69,8 +69,14 @@ POISONS = {
     'unevaluated-macro': ("f.c = @c12m/gin.macro", None, ('ref', 'c12m/gin.macro', False)),
     'unknown-reference': ("f.c = [1, {'k': (@c12_nosuch(), 2)}]", True, None),
     'required': ("f.c = %gin.REQUIRED", None, ('ref', 'gin.REQUIRED/gin.constant', True)),
+    # the same kinds of references deeper inside containers, in dict-key position, and unevaluated
+    'unbound-macro-nested': ("f.c = [1, (%c12_undefined_macro,)]", None, None),
+    'unbound-macro-as-dict-key': ("f.c = {%c12_undefined_macro: 1}", None, None),
+    'unevaluated-macro-as-dict-key': ("f.c = {'k': {@c12m/gin.macro: 1}}", None, None),
+    'unknown-reference-as-dict-key': ("f.c = {@c12_nosuch(): 1}", True, None),
+    'unknown-reference-unevaluated': ("f.c = @c12_nosuch", True, None),
 }
-HOOKPLANS = ['none', 'new', 'conflict', 'conflict-spelling', 'invalid-key', 'raise', 'two-distinct']
+HOOKPLANS = ['none', 'new', 'conflict', 'conflict-spelling', 'conflict-same-value', 'invalid-key', 'raise', 'two-distinct']
 
 
 def gen_ops(rng, depth=0, n=None):
@@ -86,7 +92,7 @@ def gen_ops(rng, depth=0, n=None):
     elif k < 0.48:
       ops.append(['macro', rng.randrange(100)])
     elif k < 0.54:
-      ops.append(['register', rng.choice(['register', 'external', 'configurable', 'again'])])
+      ops.append(['register', rng.choice(['register', 'external', 'configurable', 'again'])] if rng.random() < 0.8 else ['register-hook'])
     elif k < 0.6:
       ops.append(['clear'])
     elif k < 0.78 and depth < 3:
@@ -132,6 +138,9 @@ def plan_bindings(plan):
     return {'h/f.a': 'h0'}, {'h/f.a': 'h1'}, 'reject:hook-conflict', {}
   if plan == 'conflict-spelling':
     return {'h/f.a': 'h0'}, {'h/c12.sub.f.a': 'h1'}, 'reject:hook-conflict-spelling', {}
+  if plan == 'conflict-same-value':
+    # two hooks updating the same parameter are rejected whatever they want to set it to
+    return {'h/f.a': 'same'}, {('h', 'sub.f', 'a'): 'same'}, 'reject:hook-conflict-same-value', {}
   if plan == 'invalid-key':
     return {'h/f.a': 'h0'}, {'c12_unknown_configurable.x': 1}, 'reject:hook-invalid-key', {}
   if plan == 'raise':
@@ -191,10 +200,16 @@ def run_ops(ctx, m, ops, depth, shape):
         ctx.bucket(rej)
       if depth > 0 and not m.locked:
         ctx.bucket('state:finalize-inside-unlock')
+      runs_before = [t['runs'] for t in _S.get('extra_hooks', [])]
       try:
         call(gin.finalize)
       except Exception as e:  # pylint: disable=broad-except
         got_exc = e
+      if expect_exc is None and got_exc is None:
+        # a successful finalize ran every registered hook exactly once, whenever it was registered
+        runs = [t['runs'] - b for t, b in zip(_S.get('extra_hooks', []), runs_before)]
+        ctx.check(all(r == 1 for r in runs) and sorted(i for i, _ in _S['seen']) == [0, 1], 'finalize-did-not-run-every-hook',
+                  '%s: hooks registered during earlier histories ran %r times, the two initial hooks %r' % (label, runs, sorted(i for i, _ in _S['seen'])))
       if expect_exc is None:
         for (sc, prm), v in applied.items():
           m.set(sc, SEL, prm, canon(v))
@@ -290,6 +305,20 @@ def run_ops(ctx, m, ops, depth, shape):
     elif kind == 'hookplan':
       ctx.bucket('op:hookplan')
       m.plan = op[1]
+    elif kind == 'register-hook':
+      # hooks may be registered at any point of a history (at most 4 extra ones per process: they cannot be removed again)
+      ctx.bucket('op:register-hook' + ('-while-locked' if m.locked else ''))
+      if len(_S.setdefault('extra_hooks', [])) < 4:
+        tally = {'runs': 0}
+
+        def extra_hook(config, tally=tally):
+          tally['runs'] += 1
+          return None
+        try:
+          gc.register_finalize_hook(extra_hook)
+          _S['extra_hooks'].append(tally)
+        except Exception:  # pylint: disable=broad-except
+          ctx.count('hook_registration_refused')
     elif kind == 'poison':
       ctx.bucket('op:poison')
       text, skip, cv = POISONS[op[1]]
